@@ -109,6 +109,22 @@ def sym_pow(base, k):
         return Q(Fraction(0))
     if b.is_const() and b.c == 1:
         return Q(Fraction(1))
+    # multiplicative decomposition over factors that are positive by inspection:
+    # (c * prod f_i^e_i)^k = c^k * prod (f_i^k)^e_i   (valid for positive factors only)
+    if b.c > 0 and all(f.trivial_sign() == "pos" for f in list(b.n) + list(b.d)) \
+            and (len(b.n) + len(b.d) > 1 or b.c != 1
+                 or any(e != 1 for e in list(b.n.values()) + list(b.d.values())) or b.d):
+        r = Q(Fraction(1))
+        if b.c != 1:
+            r = r * uf("powc", (Q(b.c), k), sign="pos")
+        for f, e in b.n.items():
+            r = r * uf("pow", (Q(Fraction(1), {f: 1}), k), sign="pos") ** e
+        for f, e in b.d.items():
+            r = r / (uf("pow", (Q(Fraction(1), {f: 1}), k), sign="pos") ** e)
+        return r
+    if b.c > 0 and len(b.n) == 1 and not b.d and b.c == 1 and \
+            next(iter(b.n)).trivial_sign() == "pos":
+        return uf("pow", (b, k), sign="pos")
     cx = _ctx.cur()
     n0 = len(cx.uf_memo.get("pow", ()))
     r = uf("pow", (b, k), sign="nonneg")
